@@ -399,7 +399,7 @@ Section Stat.
     end.
 
   (* first loop of cgLocalVarDeclStat (since fixes/C07-multi-local-order.diff in two steps, as Lua evaluates a local
-     statement): local_eval analyses ALL the expressions up to and including the first one beyond the names and keeps
+     statement): local_eval analyses ALL the expressions (those beyond the names too: fixes/C20-local-surplus.diff) and keeps
      what the second step needs (the FuncInfo of a function literal, the members of a table literal); local_adds then
      adds the names; returns the names without a value and lastExpFuncFlag.  Before the repair name i was added right
      after expression i, so a later expression saw the earlier names of the statement. *)
@@ -411,7 +411,8 @@ Section Stat.
       do (s1, ofn, sub) <- ce e (Some []) s ;
       match names, locs with
       | _ :: names', _ :: locs' => do (s2, rs) <- local_eval names' locs' es' s1 ; Ok (s2, (ofn, sub) :: rs)
-      | _, _ => Ok (s1, [])                                (* i >= nNames: break *)
+      | _, _ => do (s2, _) <- local_eval [] [] es' s1 ; Ok (s2, [])   (* i >= nNames: continue (fixes/C20-local-surplus.diff;
+                                                                         before: break, the later values were never analysed) *)
       end
     end.
 
